@@ -1,5 +1,7 @@
 // Positive control for the nondeterminism-source scanner (hexsa/nondet.py): one instance of every pattern.
 // Analysed with the same clang plugin on every run; the rule must find all of them, otherwise it is broken.
+#include <locale>
+#include <clocale>
 #include <cerrno>
 #include <cstdlib>
 #include <chrono>
@@ -35,6 +37,10 @@ int sources(Node *n, const std::string &s) {
   size_t h = std::hash<std::string>()(s);
   clock_t c = std::clock();
   return (int)(a + b + r + t + h + c + (e ? 1 : 0) + rd() + now.time_since_epoch().count());
+}
+void useEnvironmentLocale() {
+  std::locale::global(std::locale(""));      // locale named by LANG / LC_ALL
+  std::setlocale(LC_ALL, "");
 }
 int buffers(size_t n, const char *digits) {
   char *raw = new char[n];                    // uninitialised dynamic buffer
